@@ -76,7 +76,11 @@ def r2(cx, run):
                         if inner and inner[0] == "call" and len(inner) > 4 and inner[4] == bb:
                             deleg.append(e)
             if deleg and not ts:
-                run.ok("R2", key, "result returned as the function's own result", mir.loc_of(t))
+                # returned as the function's own result: on every path - nothing may look at the verdict and go back into the writer tree
+                after = mir.reachable(b, [t["target"]]) if t.get("target") is not None else set()
+                again = [bb2 for bb2, t2, n2, i2 in mir.calls(b) if bb2 in after and n2 in tree]
+                run.check(not again, "R2", key, "result returned as the function's own result; no writer-tree call can follow it",
+                          "the Result of this writer-tree call is returned on one path but on another the function calls into the writer tree again (bb %s) after it came back: a failed write can be followed by an alternative continuation" % again, mir.loc_of(t))
                 continue
             if len(ts) != 1:
                 run.bad("R2", key, "the Result of this writer-tree call is not consumed by exactly one `?` (found %d) nor returned — an error could be dropped or handled locally" % len(ts), mir.loc_of(t))
